@@ -46,8 +46,9 @@ func ruleHeapIteration(w *World, r *Report, pfx string) {
 	}
 	ct := w.Comm()
 	nOrdered, nUnordered := 0, 0
-	for _, op := range ct.byFn[loop] {
-		if op.Kind != "select" {
+	hunit := w.unit(loop)
+	for _, op := range ct.Ops {
+		if op.Kind != "select" || !hunit[op.Fn] {
 			continue
 		}
 		sel := op.Instr.(*ssa.Select)
@@ -64,7 +65,7 @@ func ruleHeapIteration(w *World, r *Report, pfx string) {
 			continue
 		}
 		ordered := op.States[sendState].Class.has("iterData.iterPop")
-		l := innermostLoop(naturalLoops(loop), sel.Block())
+		l := innermostLoop(naturalLoops(op.Fn), sel.Block())
 		if l == nil {
 			r.Undecided(rule, "iterator send outside a loop", w.instrPos(sel), "unexpected shape")
 			continue
@@ -91,7 +92,7 @@ func ruleHeapIteration(w *World, r *Report, pfx string) {
 					body = s
 				}
 			}
-			n, _ := w.enumPaths(loop, pathOpts{Start: body, StopAt: func(b *ssa.BasicBlock) bool { return b == l.Header || (!l.Blocks[b] && len(b.Preds) > 1) }}, func(p *Path) {
+			n, _ := w.enumPaths(op.Fn, pathOpts{Start: body, StopAt: func(b *ssa.BasicBlock) bool { return b == l.Header || (!l.Blocks[b] && len(b.Preds) > 1) }}, func(p *Path) {
 				pops, pushes := 0, 0
 				pushedSame := false
 				for _, ev := range p.Events {
@@ -126,10 +127,8 @@ func ruleHeapIteration(w *World, r *Report, pfx string) {
 			okElem := false
 			if ld, ok := sent.(*ssa.UnOp); ok && ld.Op == token.MUL {
 				if ia, ok := ld.X.(*ssa.IndexAddr); ok {
-					if src, ok := ia.X.(*ssa.UnOp); ok && src.Op == token.MUL {
-						if _, ok := src.X.(*ssa.Alloc); ok && typeName(src.Type()) == "mpb.priorityQueue" {
-							okElem = true
-						}
+					if typeName(ia.X.Type()) == "mpb.priorityQueue" {
+						okElem = true
 					}
 				}
 			}
